@@ -82,6 +82,16 @@ CLAIMS = {
         note=TB + "Partial: object identity/aliasing is not modelled in Lean.",
         technique="Lean 4 theorem over regenerated shape flags + history-based differential correspondence",
         ref="§3 C15"),
+    "C17": dict(
+        text="C17_matrix: for every published lowering wrapper (table regenerated on every run by reflection over the dialect "
+             "interface modules and bloqade.geometry's grid module, so new wrappers are picked up) and each of the three kernel "
+             "kinds, membership of the wrapper's statement dialect in the kind's regenerated dialect group equals the documented "
+             "vocabulary matrix - decided by the kernel over the whole finite domain, which is the property's quantifier. "
+             "The membership model is tied to the decorators by defining a one-statement kernel per wrapper x decorator for real; "
+             "the tracer guard is observed on a method of each kind.",
+        note=TB + "That kirin's lowering rejects exactly the statements whose dialect is outside the group is exercised, not proved.",
+        technique="Lean 4 decide +kernel over regenerated finite tables + exhaustive behavioural correspondence",
+        ref="§3 C17"),
     "C18": dict(
         text="All bounded-lattice laws are theorems about Model/Lattice.lean for elements of any nesting depth over any "
              "strings (structural induction); the model is tied to lattice.py by running is_subseteq/join/meet of the real "
